@@ -1,4 +1,5 @@
 import D2V.Model.SemProj
+import D2V.Proofs.SemFields
 /-!
   C10 — Later declarations override earlier ones; null removes.
 
@@ -128,10 +129,7 @@ theorem field?_updField (ir : IR) (i j : Nat) (g : FNode → FNode) (hg : ∀ f,
 def addRefs (rs : List Ref) (n : FNode) : FNode := { n with refs := n.refs ++ rs }
 def setPrim (v : String) (n : FNode) : FNode := { n with prim := some v }
 
-def refOf (ref : Option (Option Nat × Owner)) (a : Name) : List Ref :=
-  match ref with
-  | some (c, sc) => [{ ctx := c, scope := sc, pos := a.pos }]
-  | none => []
+def refOf (ref : Option (Option Nat × Owner)) (a : Name) : List Ref := refList ref a.pos
 
 def newField (ir : IR) (m : Owner) (a : Name) (rs : List Ref) : IR :=
   { ir with fields := ir.fields ++ [{ id := ir.next, owner := m, name := a, refs := rs, hasMap := false }], next := ir.next + 1 }
@@ -169,14 +167,14 @@ theorem evalDecl_assign (rule : IdxRule) (ir : IR) (m : Owner) (a : Name) (ha : 
   rw [EnsureField_single ir m a ha]
   cases hf : ir.findIn m a with
   | some f =>
-    simp only [refOf]
+    simp only [refOf, refList]
     obtain ⟨hmem, _, _, _⟩ := findIn_mem ir m a f hf
     obtain ⟨f0, hf0⟩ := field?_of_mem ir f hmem
     have h1 : (ir.updField f.id (addRefs [{ ctx := none, scope := m, pos := a.pos }])).field? f.id = some (if f0.id == f.id then addRefs [{ ctx := none, scope := m, pos := a.pos }] f0 else f0) := by
       rw [field?_updField ir f.id f.id (addRefs [{ ctx := none, scope := m, pos := a.pos }]) (fun _ => rfl), hf0]; rfl
     rw [compileFieldVal_assign _ _ _ _ _ h1]
   | none =>
-    simp only [refOf]
+    simp only [refOf, refList]
     have h1 : (newField ir m a [{ ctx := none, scope := m, pos := a.pos }]).field? ir.next ≠ none := by
       unfold IR.field? newField
       simp only [ne_eq, List.find?_eq_none]
@@ -230,6 +228,217 @@ theorem merge_ci (rule : IdxRule) (ir : IR) (m : Owner) (a b : Name) (ha : a.ord
   obtain ⟨f2, hf2, _, hp, hl⟩ := last_write_wins rule ir1 m b hb w f1 hb1
   refine ⟨hl, f2, ?_, hp⟩
   rw [findIn_ci _ m a b hs hq]; exact hf2
+
+/-! ### null removes; a later declaration creates the field afresh -/
+
+/-- when nothing is found under `a`, the declaration `a: w` creates a new field: fresh id, value `w`, no map, one reference -/
+theorem assign_creates_fresh (rule : IdxRule) (ir : IR) (m : Owner) (a : Name) (ha : a.ordinary) (w : String)
+    (hnone : ir.findIn m a = none) :
+    (ir.evalDecl rule m (assign a w)).1.findIn m a =
+      some { id := ir.next, owner := m, name := a, prim := some w, hasMap := false,
+             refs := [{ ctx := none, scope := m, pos := a.pos }], alive := true } := by
+  rw [evalDecl_assign rule ir m a ha w, hnone]
+  simp only
+  rw [findIn_updField _ ir.next (setPrim w) (fun _ => ⟨rfl, rfl, rfl⟩), findIn_newField ir m a _ a hnone (matches_refl a)]
+  simp [setPrim]
+
+theorem eqFold_symm {a b : String} (h : eqFold a b = true) : eqFold b a = true := by
+  simp only [eqFold, beq_iff_eq] at *; exact h.symm
+theorem eqFold_trans {a b c : String} (h1 : eqFold a b = true) (h2 : eqFold b c = true) : eqFold a c = true := by
+  simp only [eqFold, beq_iff_eq] at *; exact h1.trans h2
+
+/-- for a name that is not a reserved keyword, matching is case-insensitive equality -/
+theorem matches_of_nonreserved {f a : Name} (hnr : a.resLower = false) : f.matches a = eqFold f.s a.s := by
+  simp [Name.matches, hnr]
+
+theorem resLower_of_eqFold {a b : Name} (h : eqFold a.s b.s = true) : a.resLower = b.resLower := by
+  simp only [eqFold, beq_iff_eq] at h; simp [Name.resLower, h]
+
+theorem nodup_map_inj {α β} (g : α → β) {l : List α} (h : (l.map g).Nodup) {x y : α} (hx : x ∈ l) (hy : y ∈ l) (e : g x = g y) : x = y := by
+  induction l with
+  | nil => simp at hx
+  | cons a r ih =>
+    simp only [List.map_cons, List.nodup_cons, List.mem_map, not_exists, not_and] at h
+    rcases List.mem_cons.mp hx with rfl | hx'
+    · rcases List.mem_cons.mp hy with rfl | hy'
+      · rfl
+      · exact absurd e.symm (h.1 y hy')
+    · rcases List.mem_cons.mp hy with rfl | hy'
+      · exact absurd e (h.1 x hx')
+      · exact ih h.2 hx' hy'
+
+theorem pairwise_mem_or {α} {R : α → α → Prop} {l : List α} (h : l.Pairwise R) {x y : α} (hx : x ∈ l) (hy : y ∈ l)
+    (hne : x ≠ y) : R x y ∨ R y x := by
+  induction h with
+  | nil => simp at hx
+  | cons hal _ ih =>
+    rcases List.mem_cons.mp hx with rfl | hx'
+    · rcases List.mem_cons.mp hy with rfl | hy'
+      · exact absurd rfl hne
+      · exact Or.inl (hal _ hy')
+    · rcases List.mem_cons.mp hy with rfl | hy'
+      · exact Or.inr (hal _ hx')
+      · exact ih hx' hy'
+
+/-- members of `fieldsOf` after killing by a predicate -/
+theorem mem_fieldsOf_updKill (ir : IR) (i : Nat) (m : Owner) (x : FNode)
+    (hx : x ∈ (ir.updField i fun n => { n with alive := false }).fieldsOf m) : x ∈ ir.fieldsOf m ∧ x.id ≠ i := by
+  have hk : (ir.updField i fun n => { n with alive := false }).fields = ir.fields.map (killF fun f => f.id == i) := by
+    simp [IR.updField, killF]
+  rw [fieldsOf_eq, hk, filter_killF] at hx
+  have h1 := List.mem_filter.mp hx
+  exact ⟨h1.1, by simpa using h1.2⟩
+
+/-- `DeleteField` on a non-keyword name, in a state satisfying the arena invariant: afterwards nothing is found under it -/
+theorem deleteField_removes (ir : IR) (hinv : FInv ir) (m : Owner) (a : Name) (hnr : a.resLower = false) (nm : String)
+    (hfold : eqFold nm a.s = true) : (ir.deleteField m nm).findIn m a = none := by
+  unfold IR.deleteField
+  split
+  · -- no live field of that name: nothing was there
+    rename_i hnone
+    unfold IR.findIn
+    rw [List.find?_eq_none]
+    intro x hx
+    have := List.find?_eq_none.mp hnone x hx
+    rw [matches_of_nonreserved hnr]
+    intro hm
+    exact this (eqFold_trans hm (eqFold_symm hfold))
+  · rename_i f hfound
+    dsimp only
+    have hf_mem := List.mem_of_find?_eq_some hfound
+    have hf_fold : eqFold f.name.s nm = true := by have := List.find?_some hfound; simpa using this
+    -- the attached-edge removal does not touch the fields
+    have hsame := foldl_same (fun ir c => ir.delAttachedUp c ir.depthFuel m) (fun ir c => delAttachedUp_same c _ ir m)
+      (f.refs.filterMap (·.ctx)) ir
+    generalize (f.refs.filterMap (·.ctx)).foldl (fun ir c => ir.delAttachedUp c ir.depthFuel m) ir = ir2 at hsame ⊢
+    have hfo : ∀ m', ir2.fieldsOf m' = ir.fieldsOf m' := by intro m'; rw [fieldsOf_eq, fieldsOf_eq, hsame.1]
+    -- every live field of `m` after the deletion was live before and is not `f`
+    have key : ∀ x, x ∈ (ir2.updField f.id fun n => { n with alive := false }).fieldsOf m → x.name.matches a = false := by
+      intro x hx
+      obtain ⟨hx1, hxid⟩ := mem_fieldsOf_updKill ir2 f.id m x hx
+      rw [hfo] at hx1
+      cases hmx : x.name.matches a with
+      | false => rfl
+      | true =>
+        exfalso
+        rw [matches_of_nonreserved hnr] at hmx
+        -- x and f are two live fields of m with matching names
+        have hfa : eqFold f.name.s a.s = true := eqFold_trans hf_fold hfold
+        have hxf : eqFold x.name.s f.name.s = true := eqFold_trans hmx (eqFold_symm hfa)
+        have hfr : f.name.resLower = false := by rw [resLower_of_eqFold hfa]; exact hnr
+        have hxr : x.name.resLower = false := by rw [resLower_of_eqFold hmx]; exact hnr
+        have hm1 : x.name.matches f.name = true := by rw [matches_of_nonreserved hfr]; exact hxf
+        have hm2 : f.name.matches x.name = true := by rw [matches_of_nonreserved hxr]; exact eqFold_symm hxf
+        have hpw := hinv.names m
+        have hne : x ≠ f := fun e => hxid (by rw [e])
+        rcases pairwise_mem_or hpw hx1 hf_mem hne with h | h
+        · rw [hm1] at h; exact absurd h (by simp)
+        · rw [hm2] at h; exact absurd h (by simp)
+    have key' : ∀ (ir3 : IR), (∀ x, x ∈ ir3.fieldsOf m → x.name.matches a = false) → ir3.findIn m a = none := by
+      intro ir3 h3
+      unfold IR.findIn
+      rw [List.find?_eq_none]
+      intro x hx
+      simp [h3 x hx]
+    split
+    · split
+      · split
+        · -- the emptied `style` holder is removed as well: one more deletion
+          apply key'
+          intro x hx
+          exact key x (mem_fieldsOf_updKill _ _ m x hx).1
+        · exact key' _ key
+      · exact key' _ key
+    · exact key' _ key
+
+/-- after `a: null` (a not a reserved keyword) nothing is found under `a` nor under any path through `a`, in every state that
+    satisfies the arena invariant — in particular in every reachable state (`reachable_finv`) -/
+theorem null_removes_field (rule : IdxRule) (ir : IR) (hinv : FInv ir) (m : Owner) (a : Name) (ha : a.ordinary)
+    (hnr : a.resLower = false) :
+    (ir.evalDecl rule m (assignNull a)).1.findIn m a = none ∧
+    ∀ rest, (ir.evalDecl rule m (assignNull a)).1.getField m (a :: rest) = none := by
+  have hmain : (ir.evalDecl rule m (assignNull a)).1.findIn m a = none := by
+    unfold IR.evalDecl
+    have hk : (assignNull a).key = [a] := rfl
+    have he : (assignNull a).edge = none := rfl
+    simp only [he, hk]
+    rw [EnsureField_single ir m a ha]
+    have hnull : isNull (assignNull a) = true := rfl
+    cases hf : ir.findIn m a with
+    | some f =>
+      simp only
+      obtain ⟨hmem, hal, hown, hmatch⟩ := findIn_mem ir m a f hf
+      have hinv1 : FInv (ir.updField f.id (addRefs (refOf (some (none, m)) a))) :=
+        fgood_inv hinv (updField_fgood _ _ _ (fun _ => ⟨rfl, rfl, rfl, rfl⟩))
+      unfold IR.compileFieldVal
+      -- the field found by id is the field found by name
+      obtain ⟨f0, hf0⟩ := field?_of_mem ir f hmem
+      have hf0eq : f0 = f := by
+        have h1 := List.find?_some hf0
+        have h2 := List.mem_of_find?_eq_some hf0
+        simp only [beq_iff_eq] at h1
+        exact nodup_map_inj (·.id) hinv.ids h2 hmem h1
+      rw [field?_updField ir f.id f.id (addRefs (refOf (some (none, m)) a)) (fun _ => rfl), hf0, hf0eq]
+      simp only [Option.map_some, beq_self_eq_true, if_true, hnull, Bool.not_false, Bool.and_self]
+      have hfold : eqFold (addRefs (refOf (some (none, m)) a) f).name.s a.s = true := by
+        rw [matches_of_nonreserved hnr] at hmatch; exact hmatch
+      have hown' : (addRefs (refOf (some (none, m)) a) f).owner = m := hown
+      rw [hown']
+      exact deleteField_removes _ hinv1 m a hnr _ hfold
+    | none =>
+      simp only
+      have hinv1 : FInv (newField ir m a (refOf (some (none, m)) a)) := by
+        apply fgood_inv hinv
+        apply FGood.of_step
+        exact FStep.add ir _ { id := ir.next, owner := m, name := a, refs := refOf (some (none, m)) a, hasMap := false } rfl rfl
+          (findIn_none_free ir m a hf) rfl (Nat.lt_succ_self _)
+      unfold IR.compileFieldVal
+      have hfield : (newField ir m a (refOf (some (none, m)) a)).field? ir.next =
+          some { id := ir.next, owner := m, name := a, refs := refOf (some (none, m)) a, hasMap := false } := by
+        unfold IR.field? newField
+        simp only
+        rw [List.find?_append]
+        have : ir.fields.find? (fun f => f.id == ir.next) = none := by
+          rw [List.find?_eq_none]
+          intro x hx
+          have := hinv.lt x hx
+          simp; omega
+        rw [this]; simp
+      rw [hfield]
+      simp only [hnull, Bool.not_false, Bool.and_self, if_true]
+      exact deleteField_removes _ hinv1 m a hnr _ (by simp [eqFold])
+  refine ⟨hmain, ?_⟩
+  intro rest
+  cases rest with
+  | nil => simp only [IR.getField]; split <;> simp [hmain]
+  | cons r rs => simp only [IR.getField]; split <;> simp [hmain]
+
+/-- null, then a new declaration: the field found under `a` afterwards is a new one — fresh id, only the new value, no map,
+    only the new reference; nothing of the old field (which keeps its old id) is reachable through it -/
+theorem redeclare_fresh (rule : IdxRule) (ir : IR) (hinv : FInv ir) (m : Owner) (a : Name) (ha : a.ordinary)
+    (hnr : a.resLower = false) (w : String) :
+    let ir1 := (ir.evalDecl rule m (assignNull a)).1
+    (ir1.evalDecl rule m (assign a w)).1.findIn m a =
+      some { id := ir1.next, owner := m, name := a, prim := some w, hasMap := false,
+             refs := [{ ctx := none, scope := m, pos := a.pos }], alive := true } ∧
+    ∀ f ∈ ir.fields, f.id < ir1.next := by
+  intro ir1
+  refine ⟨assign_creates_fresh rule ir1 m a ha w (null_removes_field rule ir hinv m a ha hnr).1, ?_⟩
+  intro f hf
+  exact Nat.lt_of_lt_of_le (hinv.lt f hf) (fgood_next (evalDecl_fgood rule ir m (assignNull a)))
+
+/-- … for every program: whatever came before, `a: null` followed by `a: w` at the end of a program leaves a fresh field -/
+theorem redeclare_fresh_program (rule : IdxRule) (items : List Item) (m : Owner) (a : Name) (ha : a.ordinary)
+    (hnr : a.resLower = false) (w : String) :
+    let ir := (evalItems rule items).ir
+    let ir1 := (ir.evalDecl rule m (assignNull a)).1
+    ir1.findIn m a = none ∧
+    (ir1.evalDecl rule m (assign a w)).1.findIn m a =
+      some { id := ir1.next, owner := m, name := a, prim := some w, hasMap := false,
+             refs := [{ ctx := none, scope := m, pos := a.pos }], alive := true } := by
+  intro ir ir1
+  have hinv := reachable_finv rule items
+  exact ⟨(null_removes_field rule ir hinv m a ha hnr).1, (redeclare_fresh rule ir hinv m a ha hnr w).1⟩
 
 /-! ### programs: the last assignment of a program wins -/
 
